@@ -152,7 +152,16 @@ def check_extend(acc, sch, w, mod, tname, tags, v, rng):
             pyrt.build(src, sch, tname, v)
             arr = getattr(dst, m.name)
             del arr[:]
-            arr.extend(getattr(src, m.name)[:])
+            # the iterable handed to extend(): a list, a tuple, the source array itself, or (where the array needs no
+            # len() of it) something that can be walked only once
+            sa = getattr(src, m.name)
+            forms = ['list', 'tuple', 'array'] + (['generator', 'iter', 'reversed-twice'] if m.kind != S.LIMITED else [])
+            form = rng.choice(forms)
+            acc.feature('extend-arg:' + form)
+            arg = {'list': lambda: sa[:], 'tuple': lambda: tuple(sa[:]), 'array': lambda: sa,
+                   'generator': lambda: (e for e in sa[:]), 'iter': lambda: iter(sa[:]),
+                   'reversed-twice': lambda: reversed(list(reversed(sa[:])))}[form]()
+            arr.extend(arg)
         except Exception as e:  # noqa
             acc.violation(PROP, 'extend-raises:%s' % type(e).__name__,
                           {'schema': sch.closure(tname).to_prophy(), 'type': tname, 'member': m.name,
